@@ -32,6 +32,11 @@ type receiveHandler struct {
 	taskCancelCh chan SeqNumber
 	taskEndCh    chan SeqNumber
 
+	// Key of the most recently started notification task; only used by
+	// the goroutine that calls Receive. Keys of notifications are
+	// -2, -3, ... (calls are keyed by their non-negative seqno).
+	lastNotifyTaskID SeqNumber
+
 	log LogInterface
 }
 
@@ -47,6 +52,8 @@ func newReceiveHandler(enc *framedMsgpackEncoder, protHandler *protocolHandler,
 		taskBeginCh:  make(chan *task),
 		taskCancelCh: make(chan SeqNumber),
 		taskEndCh:    make(chan SeqNumber),
+
+		lastNotifyTaskID: -1,
 
 		log: l,
 	}
@@ -132,8 +139,16 @@ func (r *receiveHandler) handleReceiveDispatch(req request) error {
 		req.LogInvocation(se)
 		return req.Reply(r.writer, nil, wrapError(wrapErrorFunc, se))
 	}
+	// Notifications all report the same seqno (-1), so give each its
+	// own task key; otherwise the end of one notification handler would
+	// cancel, and unregister, another one that is still running.
+	taskID := req.SeqNo()
+	if req.Type() == MethodNotify {
+		r.lastNotifyTaskID--
+		taskID = r.lastNotifyTaskID
+	}
 	select {
-	case r.taskBeginCh <- &task{req.SeqNo(), req.CancelFunc()}:
+	case r.taskBeginCh <- &task{taskID, req.CancelFunc()}:
 	case <-r.stopCh:
 		// The task loop is gone: nobody would cancel this request's
 		// context anymore, so don't start serving it.
@@ -143,7 +158,7 @@ func (r *receiveHandler) handleReceiveDispatch(req request) error {
 	go func() {
 		req.Serve(r.writer, serveHandler, wrapErrorFunc)
 		select {
-		case r.taskEndCh <- req.SeqNo():
+		case r.taskEndCh <- taskID:
 		case <-r.stopCh:
 		}
 	}()
